@@ -299,11 +299,10 @@ Theorem C17_f9_fixed :
 Proof. exact f9_fixed. Qed.
 Print Assumptions C17_f9_fixed.
 
-(* non-vacuity: the widths are attained, the ladders have the expected number of rungs, a test
-   made on the double has its last n found by the search *)
-Example ex_si : formatSI 12345 = [x31; x32; x2e; x33; x6b] /\ formatIEC 1048064 = [x31; x2e; x30; x30; x4d; x69] /\
-                length (formatSI 1000) = 5%nat /\ length (formatIEC 1024) = 6%nat /\
-                length si_ladder = 17%nat /\ length iec_ladder = 18%nat /\
+(* non-vacuity: the widths are attained (values inside a rung, not at an edge), a test made on the
+   double has its last n found by the search, the domain of the F-9 facts *)
+Example ex_si : formatSI 12345 = [x31; x32; x2e; x33; x6b] /\ formatIEC 2048 = [x32; x2e; x30; x30; x4b; x69] /\
+                length (formatSI 1234) = 5%nat /\ length (formatIEC 2048) = 6%nat /\
                 rung_last (OnDouble 99950000000000000 1) = Some 99949999999999991 /\
                 f9_range = [99949999999999992; 99949999999999993; 99949999999999994; 99949999999999995;
                             99949999999999996; 99949999999999997; 99949999999999998; 99949999999999999].
